@@ -15,7 +15,7 @@ LEVEL = "fault_enumeration"
 TECHNIQUE = "fault enumeration: each erroneous statement inserted at every line boundary where a statement may start (main file, blocks, scopes, taken conditionals, applied macro bodies, included files) of Hypothesis-seeded generated hosts rendered with blank lines, comments, multi-line comments and indentation; the reported file / zero-based line / quoted text / column are compared with the location computed from the rendered text"
 RULE = (
     "hosts: generated valid programs rendered with random blank lines, full-line and end-of-line ';' comments, single- and multi-line '/* */' comments, indentation, strings with escaped quotes, split into .include files.  "
-    "Erroneous statements: `lda.w undef_zz`, `.db 1, undef_zz`, `.dw undef_zz` (semantic: inserted wherever the statement is certainly assembled), `lda.q 5`, `lda 5,q`, `.text 'abc` + newline, `.ascii 'abc` + newline, `.text 'abc` at "
+    "Erroneous statements: `lda.w undef_zz`, `.db 1, undef_zz`, `.dw undef_zz` (semantic: inserted wherever the statement is certainly assembled), `lda.q 5`, `lda 5,q`, `lda 5,` and `lda (5,` with nothing after the comma, `.text 'abc` + newline, `.ascii 'abc` + newline, `.text 'abc` at "
     "end of file (lexical: inserted at every statement boundary, including macro bodies, block arguments of macro calls, loops and untaken branches), each with random indentation and an optional trailing comment.  Oracle: the failure text contains "
     "<file>:<zero-based line> followed by a non-digit, with the file that holds the statement, and quotes that line's text; lexical errors give :<col> in the set of defensible columns (bad suffix: the suffix character or the dot; "
     "bad index: the offending character or the comma; unterminated string: the opening quote or the end of the line).  Non-trivial = line > 0 with a comment / blank / multi-line construct before it, or inside an included file; "
@@ -43,6 +43,8 @@ SEMANTIC = {
 LEXICAL = {
     "bad-suffix": "lda.q 5",
     "bad-index": "lda 5,q",
+    "missing-index": "lda 5,",                         # the line ends after the comma
+    "missing-inner-index": "lda (5,",
     "unterminated-text": ".text 'abc",
     "unterminated-ascii": ".ascii 'abc",
     "unterminated-backslash": ".ascii 'abc\\",       # the string ends with a backslash
@@ -211,6 +213,9 @@ def check_one(out, case, sub):
                 allowed = {ind + 3, ind + 4}
             elif fault == "bad-index":
                 allowed = {ind + 5, ind + 6}
+            elif fault in ("missing-index", "missing-inner-index"):
+                # the comma, or anything after it up to the end of this line
+                allowed = set(range(ind + len(stmt_text) - 1, len(actual_line) + 1))
             else:
                 allowed = {ind + stmt_text.index("'"), len(actual_line), ind + len(stmt_text)}
             if col not in allowed:
